@@ -399,7 +399,7 @@ pub fn run(run: &Run) {
 	} else {
 		run.note(format!("quick: every {stride}th chain of the 2-layer x 2-name x all-kinds x removed-key space (total {total}); thorough enumerates it completely"));
 	}
-	let n = run.tier.pick(3_000, 100_000);
+	let n = run.tier.pick(12_000, 150_000);
 	run.explore("random-deep-chains", n, 20..=120, |src| check(run, &gen_chain(src)));
 	for k in all_kinds() {
 		run.require_class(&format!("kind:{k:?}"), 100);
